@@ -207,7 +207,7 @@ K_STRBITS = [
 
 PROPS["C01"] = {
     "level": "proof",
-    "verus": [{"unit": "recognisers", "rlimit": 200}, {"unit": "errors", "rlimit": 200}, {"unit": "number", "rlimit": 400}, {"unit": "walkers", "rlimit": 200}, {"unit": "iterators", "rlimit": 200}, {"unit": "strings", "rlimit": 200}, {"unit": "decoder", "rlimit": 300}, {"unit": "decoder_inplace", "rlimit": 300}, {"unit": "serde_access", "rlimit": 200}, {"unit": "unchecked", "rlimit": 400}, {"unit": "getmany", "rlimit": 300}, {"unit": "owned_load", "rlimit": 400}, {"unit": "walkers_unchecked", "rlimit": 400}, {"unit": "container", "rlimit": 400}, {"unit": "formatter", "rlimit": 200}, {"unit": "serializer", "rlimit": 300}, {"unit": "lazy_get", "rlimit": 300}, {"unit": "dom_visitor", "rlimit": 200}, {"unit": "typed_de", "rlimit": 300}, {"unit": "typed_num", "rlimit": 200}],
+    "verus": [{"unit": "recognisers", "rlimit": 200}, {"unit": "errors", "rlimit": 200}, {"unit": "number", "rlimit": 400}, {"unit": "walkers", "rlimit": 200}, {"unit": "iterators", "rlimit": 200}, {"unit": "strings", "rlimit": 200}, {"unit": "decoder", "rlimit": 300}, {"unit": "decoder_inplace", "rlimit": 300}, {"unit": "serde_access", "rlimit": 200}, {"unit": "unchecked", "rlimit": 400}, {"unit": "getmany", "rlimit": 300}, {"unit": "owned_load", "rlimit": 400}, {"unit": "walkers_unchecked", "rlimit": 400}, {"unit": "container", "rlimit": 400}, {"unit": "formatter", "rlimit": 200}, {"unit": "serializer", "rlimit": 300}, {"unit": "lazy_get", "rlimit": 300}, {"unit": "dom_visitor", "rlimit": 200}, {"unit": "typed_de", "rlimit": 300}, {"unit": "typed_num", "rlimit": 200}, {"unit": "typed_err", "rlimit": 200}],
     "kani": K_UNICODE + K_BLOCK[3:] + K_QUOTE[1:] + K_META[:1] + K_META[2:] + K_READER + K_OWNED[:2] + K_OWNED[-1:] + K_PASTEND,
     "syntactic": [{"name": "recursion guard stays alive while the nested value is visited", "fn": synt.depth_guard_held},
                   {"name": "input-driven parser recursion has a depth budget", "fn": synt.parser_recursion_bounded}],
@@ -294,7 +294,8 @@ PROPS["C12"] = {
 
 PROPS["C20"] = {
     "level": "proof",
-    "verus": [{"unit": "errors", "rlimit": 200}, {"unit": "iterators", "rlimit": 200}, {"unit": "typed_de", "rlimit": 300}],
+    "verus": [{"unit": "errors", "rlimit": 200}, {"unit": "iterators", "rlimit": 200}, {"unit": "typed_de", "rlimit": 300}, {"unit": "typed_err", "rlimit": 200},
+              {"unit": "recognisers", "rlimit": 200}, {"unit": "walkers", "rlimit": 200}, {"unit": "getmany", "rlimit": 300}, {"unit": "decoder", "rlimit": 300}, {"unit": "owned_load", "rlimit": 400}],
     "kani": K_POSITION + K_DOMENTRY,
     "syntactic": [{"name": "not-found codes are constructed only in get* functions", "fn": synt.notfound_only_in_get}],
     "trusted_base": [T1, T4, T6, VSTD,
@@ -303,7 +304,7 @@ PROPS["C20"] = {
                      "errors made by serde visitors (make_error / parse_line_col) are not covered",
                      "dom_entry_error_position*: Parser::parse_dom (in-place parser) and Error::syntax enter through hand-written models of their contracts (kani::stub); TlsBuf::with_capacity is replaced by its own heap branch (Kani cannot compile the const thread_local)",
                      "StreamDeserializer::next body is verified inside an inherent impl (Verus takes no contracts on foreign-trait impls)"],
-    "level_text": "Verus proof that no error leaves the typed entry points from_trait (from_str / from_slice / from_reader) and Deserializer::deserialize (also the stream deserializer) without a position, whoever made it (parser, visitor, derived code: F23); Verus proof that every error built by the parser (Parser::error -> Error::syntax) carries an offset <= input length and exactly the line/column of that offset (Position::from_index against line_of/col_of), that the snippet window arithmetic and slicing cannot go out of bounds, that classify() yields NotFound only for the four lookup codes, and that the stream deserializer and both lazy iterators latch after an error or the end; bounded Kani proof that the whole-document DOM entry (parse_with_padding) re-locates in-place parser errors in the original text",
+    "level_text": "Verus proof, function by function, that every error returned by the parser functions under contract (validating skipper, checked and unchecked walkers, get_many, both decoding drivers, lazy iterators, owned-lazy loader, string and number leaves, and the typed error path Parser::peek_invalid_type) is positioned inside the input (`res.is_err() ==> err_ok`: made by Parser::error / Error::syntax or repaired by fix_position); Verus proof that no error leaves the typed entry points from_trait (from_str / from_slice / from_reader) and Deserializer::deserialize (also the stream deserializer) without a position, whoever made it (parser, visitor, derived code: F23); Verus proof that every error built by the parser (Parser::error -> Error::syntax) carries an offset <= input length and exactly the line/column of that offset (Position::from_index against line_of/col_of), that the snippet window arithmetic and slicing cannot go out of bounds, that classify() yields NotFound only for the four lookup codes, and that the stream deserializer and both lazy iterators latch after an error or the end; bounded Kani proof that the whole-document DOM entry (parse_with_padding) re-locates in-place parser errors in the original text",
     "level_note": "offsets of UTF-8 errors rest on simdutf8 (T4); message text/Display not covered",
     "technique": TECH_V,
     "explanation": "err_ok(e, data) := index <= len && line == line_of(index) && column == col_of(index)",
